@@ -1,9 +1,10 @@
 import Netconan.Model.Words
+import Netconan.Proofs.RegexAlpha
 /-!
 # C11 – AS numbers: block-preserving, whole-number-only, keyed replacement
 -/
 namespace Netconan.Props.C11
-open Netconan Netconan.AsNum
+open Netconan Netconan.AsNum Netconan.Regex
 
 /-- the block table of the code is the documented one (kernel-decided on regenerated data) -/
 theorem boundaries_documented : Generated.asBoundaries = [0, 64512, 65536, 4200000000, 4294967296] := by decide
@@ -65,6 +66,55 @@ theorem replacement_spec (salt num : List Char) (n : Nat) (hd : decVal? num = so
   refine ⟨v, ?_, hb⟩
   have : ¬ n > 4294967295 := by omega
   simp only [replacement, hd, this, if_false, hv]
+
+/-! ### text level: only matched spans change, and a matched span is made of characters of listed numbers -/
+
+theorem litRe_alpha (w : List Char) (c : Char) (h : inRanges (litRe w).alpha c = true) : c ∈ w := by
+  induction w with
+  | nil => simp [litRe, Re.alpha, inRanges] at h
+  | cons x xs ih =>
+    simp only [litRe, List.foldr_cons, Re.alpha, inRanges_append, Bool.or_eq_true] at h
+    rcases h with h | h
+    · simp only [inRanges, List.any_cons, List.any_nil, Bool.or_false, Bool.and_eq_true, decide_eq_true_eq] at h
+      have : c.toNat = x.toNat := by omega
+      have : c = x := Char.toNat_inj.mp this
+      simp [this]
+    · exact List.mem_cons_of_mem _ (ih h)
+
+theorem altOf_alpha (rs : List Re) (c : Char) (h : inRanges (Words.altOf rs).alpha c = true) :
+    ∃ r ∈ rs, inRanges r.alpha c = true := by
+  induction rs with
+  | nil => simp [Words.altOf, Re.alpha, inRanges] at h
+  | cons r rest ih =>
+    cases rest with
+    | nil => exact ⟨r, by simp, by simpa [Words.altOf] using h⟩
+    | cons r2 rest2 =>
+      simp only [Words.altOf, Re.alpha, inRanges_append, Bool.or_eq_true] at h
+      rcases h with h | h
+      · exact ⟨r, by simp, h⟩
+      · obtain ⟨q, hq, hc⟩ := ih h
+        exact ⟨q, List.mem_cons_of_mem _ hq, hc⟩
+
+/-- **Only matched spans change; every matched span consists of characters of the listed numbers**
+(in particular no letter, punctuation or white space is ever consumed), and it is replaced by its entry
+in the precomputed map. -/
+theorem only_listed_number_spans_change (nd : List (Nat × Nat)) (nums : List (List Char)) (m)
+    (line out : List Char) (h : AsNum.anonymize { re := pattern nd nums, map := m } line = .ok out) :
+    ∃ segs : List Seg, line = (segs.map Seg.src).flatten ∧ out = (segs.map Seg.dst).flatten ∧
+      ∀ sg ∈ segs, ∀ t rp, sg = .rep t rp → ∀ ch ∈ t, ∃ n ∈ nums, ch ∈ n := by
+  obtain ⟨segs, h1, h2, h3⟩ := sub_frame _ _ line out h
+  refine ⟨segs, h1, h2, ?_⟩
+  intro sg hsg t rp hst ch hch
+  obtain ⟨z0, z1, cs, hm, ht, _⟩ := h3 sg hsg t rp hst
+  have hal := match_text_in_alpha _ _ z0 z1 cs hm ch (by rw [← ht]; exact hch)
+  have hal' : inRanges (Words.altOf (nums.map litRe)).alpha ch = true := by
+    have e : (pattern nd nums).alpha = (Words.altOf (nums.map litRe)).alpha := by
+      simp [pattern, Re.alpha]
+    rw [e] at hal; exact hal
+  obtain ⟨r, hr, hc⟩ := altOf_alpha _ ch hal'
+  simp only [List.mem_map] at hr
+  obtain ⟨n, hn, rfl⟩ := hr
+  exact ⟨n, hn, litRe_alpha n ch hc⟩
 
 /-- block end points and their neighbours, kernel-evaluated through the whole function (tests) -/
 example : blockOf 64511 = 0 ∧ blockOf 64512 = 1 ∧ blockOf 65535 = 1 ∧ blockOf 65536 = 2
